@@ -53,9 +53,17 @@ theorem blockValid_updated (e : Env) (pool : List Tx) (tpl : Template) (n : Int)
   unfold blockValid at hv ⊢
   rw [connect_updated]
   simp only [Bool.and_eq_true, List.all_eq_true, decide_eq_true_eq] at hv ⊢
-  obtain ⟨⟨⟨⟨⟨⟨⟨⟨⟨h1, h2⟩, h3⟩, h4⟩, h5⟩, h6⟩, h7⟩, _⟩, h9⟩, h10⟩ := hv
-  refine ⟨⟨⟨⟨⟨⟨⟨⟨⟨h1, h2⟩, h3⟩, ?_⟩, h5⟩, h6⟩, h7⟩, hw⟩, h9⟩, h10⟩
-  intro t ht
-  exact isFinalized_mono t _ _ _ (headerTime_mono e n w hn) (h4 t ht)
+  obtain ⟨⟨⟨⟨⟨⟨⟨⟨⟨⟨⟨⟨h1, h2⟩, h3⟩, h4⟩, h5⟩, h6⟩, h7⟩, _⟩, h9⟩, h10⟩, h11⟩, h12⟩, h13⟩ := hv
+  refine ⟨⟨⟨⟨⟨⟨⟨⟨⟨⟨⟨⟨h1, h2⟩, h3⟩, ?_⟩, h5⟩, h6⟩, h7⟩, hw⟩, h9⟩, h10⟩, h11⟩, ?_⟩, ?_⟩
+  · intro t ht
+    exact isFinalized_mono t _ _ _ (headerTime_mono e n w hn) (h4 t ht)
+  · show e.mtp < headerTime (e.updated n w)
+    unfold headerTime Env.updated; simp only; split <;> omega
+  · show headerTime (e.updated n w) ≤ n + MAX_TIME_OFFSET
+    have h13' : headerTime e ≤ e.now + MAX_TIME_OFFSET := h13
+    unfold headerTime at h13'
+    unfold headerTime Env.updated; simp only
+    unfold MAX_TIME_OFFSET at *
+    split <;> split at h13' <;> omega
 
 end BV.C12
